@@ -1,8 +1,11 @@
 import SimilarVerif.Model.Myers
 import SimilarVerif.Lemmas.Utils
 /-! Soundness of Myers' `conquer` over the recording hook, for every clock, relative to the one
-fact about `find_middle_snake` that needs Myers' theory: the returned split point lies in the box. -/
-namespace SimilarVerif
+fact about `find_middle_snake` that needs Myers' theory: the returned split point lies in the box
+(`SnakeInBox`).  Exactness of the carried indices without a deadline is in addition relative to
+`SnakeFound` (without a deadline `find_middle_snake` does not give up); unconditionally the carried
+indices are `NearExact`: exact except for the `insert` of a `delete`+`insert` fallback pair. -/
+namespace SimilarVerif.MyersP
 open Spec
 
 /-- What `conquer` needs from `find_middle_snake` to be sound: a returned split point lies inside
@@ -14,15 +17,547 @@ def SnakeInBox (E : Env) : Prop :=
     findMiddleSnake E os oe ns ne off vf vb w = .ok (vf', vb', some (x, y), w') →
     os ≤ x ∧ x ≤ oe ∧ ns ≤ y ∧ y ≤ ne
 
+/-- The second fact about `find_middle_snake` that needs Myers' theory (a middle snake exists with
+`d < d_max`): without a deadline it never gives up.  In the model `snakeLoop` answers `none` both when
+the deadline fires and when its `d` counter runs out; only the theory excludes the latter. -/
+def SnakeFound (E : Env) : Prop :=
+  ∀ (os oe ns ne off : Nat) (vf vb : V) (w : World) (vf' vb' : V) (w' : World),
+    os < oe → ns < ne → InBounds E os oe ns ne → w.clock = none →
+    findMiddleSnake E os oe ns ne off vf vb w ≠ .ok (vf', vb', none, w')
+
+/-! ## Spec-level lemmas: appending scripts -/
+
+theorem Walk_append {e : Nat → Nat → Bool} : ∀ (a b : List Op) (o n o2 n2 : Nat),
+    Walk e o n (a ++ b) o2 n2 ↔ ∃ o1 n1, Walk e o n a o1 n1 ∧ Walk e o1 n1 b o2 n2 := by
+  intro a
+  induction a with
+  | nil =>
+    intro b o n o2 n2
+    simp only [List.nil_append, Walk]
+    constructor
+    · intro h; exact ⟨o, n, ⟨rfl, rfl⟩, h⟩
+    · rintro ⟨o1, n1, ⟨rfl, rfl⟩, h⟩; exact h
+  | cons c cs ih =>
+    intro b o n o2 n2
+    cases c <;> simp only [Walk, List.cons_append, ih] <;> grind
+
+theorem Exact_append {e : Nat → Nat → Bool} : ∀ (a b : List Op) (o n o1 n1 : Nat),
+    Walk e o n a o1 n1 → Exact o n a → Exact o1 n1 b → Exact o n (a ++ b) := by
+  intro a
+  induction a with
+  | nil =>
+    intro b o n o1 n1 hw _ hb
+    simp only [Walk] at hw
+    obtain ⟨rfl, rfl⟩ := hw
+    simpa using hb
+  | cons c cs ih =>
+    intro b o n o1 n1 hw ha hb
+    cases c <;> simp only [Walk, Exact, List.cons_append, Op.oStart, Op.nStart, Op.oLen, Op.nLen] at hw ha ⊢
+    all_goals
+      refine ⟨ha.1, ha.2.1, ?_⟩
+      apply ih b _ _ o1 n1 _ ha.2.2 hb
+      try simp only [Nat.add_zero]
+      grind
+
+/-- Carried indices are exact, except that an `insert` which directly follows a `delete` may carry
+the old position at which that `delete` started (`pd`).  This is what the deadline fallback of
+`conquer` emits, and it implies C01's `Carried`. -/
+def NearExact : Option Nat → Nat → Nat → List Op → Prop
+  | _, _, _, [] => True
+  | _, o, n, .equal co cn len :: cs => co = o ∧ cn = n ∧ NearExact none (o+len) (n+len) cs
+  | _, o, n, .delete co l cn :: cs => co = o ∧ cn = n ∧ NearExact (some o) (o+l) n cs
+  | pd, o, n, .insert co cn l :: cs => (co = o ∨ pd = some co) ∧ cn = n ∧ NearExact none o (n+l) cs
+  | _, o, n, .replace co ol cn nl :: cs => co = o ∧ cn = n ∧ NearExact none (o+ol) (n+nl) cs
+
+theorem NearExact_mono : ∀ (pd : Option Nat) (b : List Op) (o n : Nat),
+    NearExact none o n b → NearExact pd o n b := by
+  intro pd b o n h
+  cases b with
+  | nil => simp [NearExact]
+  | cons c cs => cases c <;> simp only [NearExact] at h ⊢ <;> grind
+
+theorem NearExact_append {e : Nat → Nat → Bool} : ∀ (a b : List Op) (pd : Option Nat) (o n o1 n1 : Nat),
+    Walk e o n a o1 n1 → NearExact pd o n a → NearExact none o1 n1 b → NearExact pd o n (a ++ b) := by
+  intro a
+  induction a with
+  | nil =>
+    intro b pd o n o1 n1 hw _ hb
+    simp only [Walk] at hw
+    obtain ⟨rfl, rfl⟩ := hw
+    simpa using NearExact_mono pd b _ _ hb
+  | cons c cs ih =>
+    intro b pd o n o1 n1 hw ha hb
+    cases c <;> simp only [Walk, NearExact, List.cons_append] at hw ha ⊢
+    · exact ⟨ha.1, ha.2.1, ih b _ _ _ o1 n1 hw.2.2.2.2 ha.2.2 hb⟩
+    · exact ⟨ha.1, ha.2.1, ih b _ _ _ o1 n1 hw.2.2 ha.2.2 hb⟩
+    · exact ⟨ha.1, ha.2.1, ih b _ _ _ o1 n1 hw.2.2 ha.2.2 hb⟩
+    · exact ⟨ha.1, ha.2.1, ih b _ _ _ o1 n1 hw.2.2.2.2 ha.2.2 hb⟩
+
+theorem InRun_mono {o0 n0 o1 n1 o1' n1' : Nat} {x : Op} (h : InRun o0 n0 o1 n1 x)
+    (ho : o1 ≤ o1') (hn : n1 ≤ n1') : InRun o0 n0 o1' n1' x := by
+  cases x <;> simp only [InRun] at h ⊢ <;> omega
+
+theorem CarriedGo_of_NearExact : ∀ (ops : List Op) (o0 n0 o n : Nat) (pend : List Op) (pd : Option Nat),
+    o0 ≤ o → n0 ≤ n → (∀ x ∈ pend, InRun o0 n0 o n x) → (∀ d, pd = some d → o0 ≤ d ∧ d ≤ o) →
+    NearExact pd o n ops → CarriedGo o0 n0 o n pend ops := by
+  intro ops
+  induction ops with
+  | nil => intro o0 n0 o n pend pd _ _ hp _ _; simpa [CarriedGo] using hp
+  | cons c cs ih =>
+    intro o0 n0 o n pend pd ho hn hp hpd h
+    cases c with
+    | equal co cn len =>
+      simp only [NearExact] at h
+      simp only [CarriedGo]
+      refine ⟨hp, ih _ _ _ _ [] none (Nat.le_refl _) (Nat.le_refl _) ?_ ?_ h.2.2⟩
+      · intro x hx; simp at hx
+      · intro d hd; simp at hd
+    | delete co l cn =>
+      simp only [NearExact] at h
+      simp only [CarriedGo]
+      refine ih _ _ _ _ _ (some o) (by omega) hn ?_ ?_ h.2.2
+      · intro x hx
+        simp only [List.mem_cons] at hx
+        rcases hx with rfl | hx
+        · simp only [InRun]; omega
+        · exact InRun_mono (hp x hx) (by omega) (Nat.le_refl _)
+      · intro d hd; simp only [Option.some.injEq] at hd; omega
+    | insert co cn l =>
+      simp only [NearExact] at h
+      simp only [CarriedGo]
+      refine ih _ _ _ _ _ none ho (by omega) ?_ ?_ h.2.2
+      · intro x hx
+        simp only [List.mem_cons] at hx
+        rcases hx with rfl | hx
+        · simp only [InRun]
+          rcases h.1 with rfl | hc
+          · omega
+          · exact hpd co hc
+        · exact InRun_mono (hp x hx) (Nat.le_refl _) (by omega)
+      · intro d hd; simp at hd
+    | replace co ol cn nl =>
+      simp only [NearExact] at h
+      simp only [CarriedGo]
+      refine ih _ _ _ _ _ none (by omega) (by omega) ?_ ?_ h.2.2
+      · intro x hx
+        simp only [List.mem_cons] at hx
+        rcases hx with rfl | hx
+        · simp only [InRun]
+        · exact InRun_mono (hp x hx) (by omega) (by omega)
+      · intro d hd; simp at hd
+
+/-- near-exact carried indices obey C01's run-relative rule -/
+theorem Carried_of_NearExact {o n : Nat} {ops : List Op} (h : NearExact none o n ops) : Carried o n ops := by
+  apply CarriedGo_of_NearExact ops o n o n [] none (Nat.le_refl _) (Nat.le_refl _) _ _ h
+  · intro x hx; simp at hx
+  · intro d hd; simp at hd
+
+/-! ## The recording hook -/
+
+/-- the hook state `r'` is `r` with `ops` appended to its trace -/
+def Ext (r r' : Rec) (ops : List Op) : Prop := r' = { r with trace := r.trace ++ ops.map Call.op }
+
+theorem Ext.nil (r : Rec) : Ext r r [] := by simp [Ext]
+
+theorem Ext.append {r r1 r2 : Rec} {a b : List Op} (h1 : Ext r r1 a) (h2 : Ext r1 r2 b) :
+    Ext r r2 (a ++ b) := by
+  unfold Ext at *
+  subst h1 h2
+  simp [List.append_assoc]
+
+theorem Ext.failAt {r r' : Rec} {a : List Op} (h : Ext r r' a) : r'.failAt = r.failAt := by
+  unfold Ext at h; subst h; rfl
+
+/-- `recHook` on a non-`replace` op with `failAt = none`: appends the call, world unchanged -/
+theorem emit_rec {x : Op} {r r' : Rec} {w w' : World} (hf : r.failAt = none)
+    (hx : ∀ o ol n nl, x ≠ .replace o ol n nl) (h : emit recHook x r w = .ok (r', w')) :
+    Ext r r' [x] ∧ w' = w := by
+  cases x with
+  | replace o ol n nl => exact absurd rfl (hx o ol n nl)
+  | _ =>
+    simp only [emit, recHook, Rec.push, hf, Except.map] at h
+    simp at h
+    obtain ⟨rfl, rfl⟩ := h
+    simp [Ext, hf]
+
+/-! ## The clock: without a deadline nothing changes it -/
+
+theorem probe_none {w : World} (h : w.clock = none) : probe w = (false, w) := by
+  simp [probe, h]
+
+theorem commonPrefixLen_clock {E : Env} {os oe ns ne : Nat} {w w' : World} {p : Nat}
+    (h : commonPrefixLen E os oe ns ne w = .ok (p, w')) : w'.clock = w.clock :=
+  (commonPrefixLen_spec h).2.2.2.2.1
+
+theorem commonSuffixLen_clock {E : Env} {os oe ns ne : Nat} {w w' : World} {p : Nat}
+    (h : commonSuffixLen E os oe ns ne w = .ok (p, w')) : w'.clock = w.clock :=
+  (commonSuffixLen_spec h).2.2.2.2.1
+
+theorem fwdPass_clock (E : Env) (os oe ns ne off : Nat) (d delta : Int) (odd : Bool) (vb : V) :
+    ∀ (cnt : Nat) (k : Int) (vf : V) (w : World) (vf' : V) (res : Option (Nat × Nat)) (w' : World),
+      fwdPass E os oe ns ne off d delta odd vb cnt k vf w = .ok (vf', res, w') → w'.clock = w.clock := by
+  intro cnt
+  induction cnt with
+  | zero => intro k vf w vf' res w' h; simp [fwdPass] at h; rw [h.2.2]
+  | succ c ih =>
+    intro k vf w vf' res w' h
+    simp only [fwdPass] at h
+    split at h
+    · simp at h
+    · rename_i x0 _
+      split at h
+      · simp at h
+      · rename_i x w1 hadv
+        have hw1 : w1.clock = w.clock := by
+          split at hadv
+          · split at hadv
+            · rename_i hc; simp at hadv; rw [← hadv.2]; exact commonPrefixLen_clock hc
+            · simp at hadv
+          · simp at hadv; rw [hadv.2]
+        split at h
+        · simp at h
+        · split at h
+          · split at h
+            · simp at h
+            · split at h
+              · split at h
+                · simp at h
+                · simp at h; rw [← h.2.2]; exact hw1
+              · rw [ih _ _ _ _ _ _ h, hw1]
+          · rw [ih _ _ _ _ _ _ h, hw1]
+
+theorem bwdPass_clock (E : Env) (os oe ns ne off : Nat) (d delta : Int) (odd : Bool) (vf : V) :
+    ∀ (cnt : Nat) (k : Int) (vb : V) (w : World) (vb' : V) (res : Option (Nat × Nat)) (w' : World),
+      bwdPass E os oe ns ne off d delta odd vf cnt k vb w = .ok (vb', res, w') → w'.clock = w.clock := by
+  intro cnt
+  induction cnt with
+  | zero => intro k vb w vb' res w' h; simp [bwdPass] at h; rw [h.2.2]
+  | succ c ih =>
+    intro k vb w vb' res w' h
+    simp only [bwdPass] at h
+    split at h
+    · simp at h
+    · rename_i x0 _
+      split at h
+      · simp at h
+      · rename_i x y w1 hadv
+        have hw1 : w1.clock = w.clock := by
+          split at hadv
+          · split at hadv
+            · rename_i hc; simp at hadv; rw [← hadv.2.2]; exact commonSuffixLen_clock hc
+            · simp at hadv
+          · simp at hadv; rw [hadv.2.2]
+        split at h
+        · simp at h
+        · split at h
+          · split at h
+            · simp at h
+            · split at h
+              · split at h
+                · simp at h
+                · simp at h; rw [← h.2.2]; exact hw1
+              · rw [ih _ _ _ _ _ _ h, hw1]
+          · rw [ih _ _ _ _ _ _ h, hw1]
+
+theorem snakeLoop_clock (E : Env) (os oe ns ne off : Nat) (delta : Int) (odd : Bool) :
+    ∀ (cnt d : Nat) (vf vb : V) (w : World) (vf' vb' : V) (res : Option (Nat × Nat)) (w' : World),
+      snakeLoop E os oe ns ne off delta odd cnt d vf vb w = .ok (vf', vb', res, w') →
+      w.clock = none → w'.clock = none := by
+  intro cnt
+  induction cnt with
+  | zero => intro d vf vb w vf' vb' res w' h hc; simp [snakeLoop] at h; rw [← h.2.2.2]; exact hc
+  | succ c ih =>
+    intro d vf vb w vf' vb' res w' h hc
+    simp only [snakeLoop, probe_none hc] at h
+    split at h
+    · simp at h
+    · rename_i hf
+      simp at h; rw [← h.2.2.2, fwdPass_clock _ _ _ _ _ _ _ _ _ _ _ _ _ _ _ _ _ hf]; exact hc
+    · rename_i hf
+      have h1 := fwdPass_clock _ _ _ _ _ _ _ _ _ _ _ _ _ _ _ _ _ hf
+      split at h
+      · simp at h
+      · rename_i hb
+        simp at h; rw [← h.2.2.2, bwdPass_clock _ _ _ _ _ _ _ _ _ _ _ _ _ _ _ _ _ hb, h1]; exact hc
+      · rename_i hb
+        have h2 := bwdPass_clock _ _ _ _ _ _ _ _ _ _ _ _ _ _ _ _ _ hb
+        exact ih _ _ _ _ _ _ _ _ h (by rw [h2, h1]; exact hc)
+
+theorem findMiddleSnake_clock {E : Env} {os oe ns ne off : Nat} {vf vb : V} {w : World}
+    {vf' vb' : V} {res : Option (Nat × Nat)} {w' : World}
+    (h : findMiddleSnake E os oe ns ne off vf vb w = .ok (vf', vb', res, w'))
+    (hc : w.clock = none) : w'.clock = none := by
+  unfold findMiddleSnake at h
+  simp only at h
+  split at h
+  · simp at h
+  · split at h
+    · simp at h
+    · split at h
+      · simp at h
+      · exact snakeLoop_clock _ _ _ _ _ _ _ _ _ _ _ _ _ _ _ _ _ h hc
+
+theorem InBounds_sub {E : Env} {os oe ns ne os' oe' ns' ne' : Nat} (h : InBounds E os oe ns ne)
+    (h1 : os ≤ os') (h2 : oe' ≤ oe) (h3 : ns ≤ ns') (h4 : ne' ≤ ne) : InBounds E os' oe' ns' ne' :=
+  fun i j a b c d => h i j (by omega) (by omega) (by omega) (by omega)
+
+/-! ## Segments of a run -/
+
+/-- One stretch of a run over the recording hook: the hook went from `r` to `r'` being told `ops`,
+which walk from `(o,n)` to `(o',n')` with near-exact carried indices, exact ones under `P`. -/
+structure Seg (e : Nat → Nat → Bool) (P : Prop) (r : Rec) (o n : Nat) (ops : List Op)
+    (r' : Rec) (o' n' : Nat) : Prop where
+  ext : Ext r r' ops
+  walk : Walk e o n ops o' n'
+  near : NearExact none o n ops
+  exact : P → Exact o n ops
+
+theorem Seg.nil {e : Nat → Nat → Bool} {P : Prop} {r : Rec} {o n : Nat} : Seg e P r o n [] r o n :=
+  ⟨Ext.nil r, by simp [Walk], by simp [NearExact], fun _ => by simp [Exact]⟩
+
+theorem Seg.append {e : Nat → Nat → Bool} {P : Prop} {r r1 r2 : Rec} {o n o1 n1 o2 n2 : Nat} {a b : List Op}
+    (h1 : Seg e P r o n a r1 o1 n1) (h2 : Seg e P r1 o1 n1 b r2 o2 n2) : Seg e P r o n (a ++ b) r2 o2 n2 :=
+  ⟨h1.ext.append h2.ext, (Walk_append a b o n o2 n2).2 ⟨o1, n1, h1.walk, h2.walk⟩,
+   NearExact_append a b none o n o1 n1 h1.walk h1.near h2.near,
+   fun hp => Exact_append a b o n o1 n1 h1.walk (h1.exact hp) (h2.exact hp)⟩
+
+theorem Seg.failAt {e : Nat → Nat → Bool} {P : Prop} {r r' : Rec} {o n o' n' : Nat} {a : List Op}
+    (h : Seg e P r o n a r' o' n') (hf : r.failAt = none) : r'.failAt = none := by
+  rw [h.ext.failAt]; exact hf
+
+theorem Seg.equal {e : Nat → Nat → Bool} {P : Prop} {r r' : Rec} {w w' : World} {o n l : Nat}
+    (hf : r.failAt = none) (h : emit recHook (.equal o n l) r w = .ok (r', w')) (hl : 0 < l)
+    (heq : ∀ t, t < l → e (o+t) (n+t) = true) :
+    Seg e P r o n [.equal o n l] r' (o+l) (n+l) ∧ w' = w := by
+  obtain ⟨hx, rfl⟩ := emit_rec hf (by intros; simp) h
+  exact ⟨⟨hx, by simp only [Walk, hl, true_and, and_true]; exact heq, by simp [NearExact], fun _ => by simp [Exact, Op.oStart, Op.nStart]⟩, rfl⟩
+
+theorem Seg.delete {e : Nat → Nat → Bool} {P : Prop} {r r' : Rec} {w w' : World} {o n l : Nat}
+    (hf : r.failAt = none) (h : emit recHook (.delete o l n) r w = .ok (r', w')) (hl : 0 < l) :
+    Seg e P r o n [.delete o l n] r' (o+l) n ∧ w' = w := by
+  obtain ⟨hx, rfl⟩ := emit_rec hf (by intros; simp) h
+  exact ⟨⟨hx, by simp [Walk, hl], by simp [NearExact], fun _ => by simp [Exact, Op.oStart, Op.nStart]⟩, rfl⟩
+
+theorem Seg.insert {e : Nat → Nat → Bool} {P : Prop} {r r' : Rec} {w w' : World} {o n l : Nat}
+    (hf : r.failAt = none) (h : emit recHook (.insert o n l) r w = .ok (r', w')) (hl : 0 < l) :
+    Seg e P r o n [.insert o n l] r' o (n+l) ∧ w' = w := by
+  obtain ⟨hx, rfl⟩ := emit_rec hf (by intros; simp) h
+  exact ⟨⟨hx, by simp [Walk, hl], by simp [NearExact], fun _ => by simp [Exact, Op.oStart, Op.nStart]⟩, rfl⟩
+
+/-- the deadline fallback: `delete` then `insert`, the insert carrying the old position *before* the
+delete. Never exact, hence only available when `P` is absurd. -/
+theorem Seg.fallback {e : Nat → Nat → Bool} {P : Prop} {r r1 r2 : Rec} {w w1 w2 : World} {o n l l' : Nat}
+    (hP : ¬ P) (hf : r.failAt = none) (h1 : emit recHook (.delete o l n) r w = .ok (r1, w1))
+    (h2 : emit recHook (.insert o n l') r1 w1 = .ok (r2, w2)) (hl : 0 < l) (hl' : 0 < l') :
+    Seg e P r o n [.delete o l n, .insert o n l'] r2 (o+l) (n+l') ∧ w2 = w := by
+  obtain ⟨hx1, rfl⟩ := emit_rec hf (by intros; simp) h1
+  obtain ⟨hx2, rfl⟩ := emit_rec (by rw [hx1.failAt]; exact hf) (by intros; simp) h2
+  exact ⟨⟨hx1.append hx2, by simp [Walk, hl, hl'], by simp [NearExact], fun hp => absurd hp hP⟩, rfl⟩
+
+/-! ## `conquer` -/
+
+theorem conquer_aux (E : Env) (hbox : SnakeInBox E) (off : Nat) (P : Prop) (hfound : P → SnakeFound E) :
+    ∀ (fuel os oe ns ne : Nat) (vf vb : V) (r : Rec) (w : World) (r' : Rec) (vf' vb' : V) (w' : World),
+      r.failAt = none → os ≤ oe → ns ≤ ne → InBounds E os oe ns ne → (P → w.clock = none) →
+      conquer E recHook off fuel os oe ns ne vf vb r w = .ok (r', vf', vb', w') →
+      (∃ ops, Seg (eqB E) P r os ns ops r' oe ne) ∧ (w.clock = none → w'.clock = none) := by
+  intro fuel
+  induction fuel with
+  | zero => intro os oe ns ne vf vb r w r' vf' vb' w' _ _ _ _ _ h; simp [conquer] at h
+  | succ f ih =>
+    intro os oe ns ne vf vb r w r' vf' vb' w' hf ho hn hb hP h
+    simp only [conquer] at h
+    split at h
+    · simp at h
+    · rename_i p w1 hp
+      obtain ⟨hp1, hp2, hp3, -, hp5⟩ := commonPrefixLen_spec hp
+      have hc1 : w1.clock = w.clock := hp5.1
+      split at h
+      · simp at h
+      · rename_i r1 w2 hpre
+        have hpre' : (∃ pre, Seg (eqB E) P r os ns pre r1 (os+p) (ns+p)) ∧ w2 = w1 := by
+          split at hpre
+          · rename_i hpos
+            obtain ⟨sg, rfl⟩ := Seg.equal (P := P) hf hpre hpos hp3
+            exact ⟨⟨_, sg⟩, rfl⟩
+          · rename_i hpos
+            simp only [Except.ok.injEq, Prod.mk.injEq] at hpre
+            obtain ⟨rfl, rfl⟩ := hpre
+            have : p = 0 := by omega
+            subst this
+            exact ⟨⟨[], Seg.nil⟩, rfl⟩
+        obtain ⟨⟨pre, spre⟩, rfl⟩ := hpre'
+        have hf1 : r1.failAt = none := spre.failAt hf
+        split at h
+        · simp at h
+        · rename_i sl w3 hs
+          obtain ⟨hs1, hs2, hs3, -, hs5⟩ := commonSuffixLen_spec hs
+          have hc3 : w3.clock = w.clock := by rw [hs5.1, hc1]
+          split at h
+          · simp at h
+          · rename_i r2 vf2 vb2 w4 hmid
+            have hmid' : (∃ mid, Seg (eqB E) P r1 (os+p) (ns+p) mid r2 (oe-sl) (ne-sl)) ∧
+                (w3.clock = none → w4.clock = none) := by
+              split at hmid
+              · -- both ranges empty
+                rename_i hcond
+                simp only [Bool.and_eq_true, decide_eq_true_eq] at hcond
+                simp only [Except.ok.injEq, Prod.mk.injEq] at hmid
+                obtain ⟨rfl, rfl, rfl, rfl⟩ := hmid
+                have e1 : oe - sl = os + p := by omega
+                have e2 : ne - sl = ns + p := by omega
+                rw [e1, e2]
+                exact ⟨⟨[], Seg.nil⟩, id⟩
+              · rename_i hcond
+                simp only [Bool.and_eq_true, decide_eq_true_eq] at hcond
+                split at hmid
+                · -- new range empty: one delete
+                  rename_i hne
+                  split at hmid
+                  · simp at hmid
+                  · rename_i ra wa hem
+                    simp only [Except.ok.injEq, Prod.mk.injEq] at hmid
+                    obtain ⟨rfl, rfl, rfl, rfl⟩ := hmid
+                    obtain ⟨sg, rfl⟩ := Seg.delete (e := eqB E) (P := P) hf1 hem (by omega)
+                    have e1 : os + p + (oe - sl - (os + p)) = oe - sl := by omega
+                    have e2 : ns + p = ne - sl := by omega
+                    rw [e1] at sg
+                    rw [← e2]
+                    exact ⟨⟨_, sg⟩, id⟩
+                · rename_i hne
+                  split at hmid
+                  · -- old range empty: one insert
+                    rename_i hoe
+                    split at hmid
+                    · simp at hmid
+                    · rename_i ra wa hem
+                      simp only [Except.ok.injEq, Prod.mk.injEq] at hmid
+                      obtain ⟨rfl, rfl, rfl, rfl⟩ := hmid
+                      obtain ⟨sg, rfl⟩ := Seg.insert (e := eqB E) (P := P) hf1 hem (by omega)
+                      have e1 : ns + p + (ne - sl - (ns + p)) = ne - sl := by omega
+                      have e2 : os + p = oe - sl := by omega
+                      rw [e1] at sg
+                      rw [← e2]
+                      exact ⟨⟨_, sg⟩, id⟩
+                  · rename_i hoe
+                    have hb' : InBounds E (os+p) (oe-sl) (ns+p) (ne-sl) :=
+                      InBounds_sub hb (by omega) (by omega) (by omega) (by omega)
+                    split at hmid
+                    · simp at hmid
+                    · -- a split point
+                      rename_i vf5 vb5 x y w5 hfm
+                      obtain ⟨hx1, hx2, hy1, hy2⟩ :=
+                        hbox _ _ _ _ _ _ _ _ _ _ _ _ _ (by omega) (by omega) hb' hfm
+                      have hc5 : w3.clock = none → w5.clock = none := findMiddleSnake_clock hfm
+                      split at hmid
+                      · simp at hmid
+                      · rename_i ra vfa vba wa hca
+                        obtain ⟨⟨opsa, sga⟩, hcla⟩ := ih _ _ _ _ _ _ _ _ _ _ _ _ hf1 hx1 hy1
+                          (InBounds_sub hb' (Nat.le_refl _) hx2 (Nat.le_refl _) hy2)
+                          (fun hp => hc5 (by rw [hc3]; exact hP hp)) hca
+                        obtain ⟨⟨opsb, sgb⟩, hclb⟩ := ih _ _ _ _ _ _ _ _ _ _ _ _ (sga.failAt hf1) hx2 hy2
+                          (InBounds_sub hb' hx1 (Nat.le_refl _) hy1 (Nat.le_refl _))
+                          (fun hp => hcla (hc5 (by rw [hc3]; exact hP hp))) hmid
+                        exact ⟨⟨_, sga.append sgb⟩, fun hc => hclb (hcla (hc5 hc))⟩
+                    · -- gave up: delete then insert
+                      rename_i vf5 vb5 w5 hfm
+                      have hc5 : w3.clock = none → w5.clock = none := findMiddleSnake_clock hfm
+                      have hnP : ¬ P := fun hp =>
+                        hfound hp _ _ _ _ _ _ _ _ _ _ _ (by omega) (by omega) hb'
+                          (by rw [hc3]; exact hP hp) hfm
+                      split at hmid
+                      · simp at hmid
+                      · rename_i ra wa hem1
+                        split at hmid
+                        · simp at hmid
+                        · rename_i rb wb hem2
+                          simp only [Except.ok.injEq, Prod.mk.injEq] at hmid
+                          obtain ⟨rfl, rfl, rfl, rfl⟩ := hmid
+                          obtain ⟨sg, rfl⟩ := Seg.fallback (e := eqB E) hnP hf1 hem1 hem2 (by omega) (by omega)
+                          have e1 : os + p + (oe - sl - (os + p)) = oe - sl := by omega
+                          have e2 : ns + p + (ne - sl - (ns + p)) = ne - sl := by omega
+                          rw [e1, e2] at sg
+                          exact ⟨⟨_, sg⟩, hc5⟩
+            obtain ⟨⟨mid, smid⟩, hc4⟩ := hmid'
+            have hf2 : r2.failAt = none := smid.failAt hf1
+            have hpost : (∃ post, Seg (eqB E) P r2 (oe-sl) (ne-sl) post r' oe ne) ∧ w' = w4 := by
+              split at h
+              · rename_i hpos
+                split at h
+                · simp at h
+                · rename_i rc wc hem
+                  simp only [Except.ok.injEq, Prod.mk.injEq] at h
+                  obtain ⟨rfl, rfl, rfl, rfl⟩ := h
+                  obtain ⟨sg, rfl⟩ := Seg.equal (e := eqB E) (P := P) hf2 hem hpos (by
+                    intro t ht
+                    have := hs3 (sl - 1 - t) (by omega)
+                    have e1 : oe - 1 - (sl - 1 - t) = oe - sl + t := by omega
+                    have e2 : ne - 1 - (sl - 1 - t) = ne - sl + t := by omega
+                    rw [e1, e2] at this
+                    exact this)
+                  have e1 : oe - sl + sl = oe := by omega
+                  have e2 : ne - sl + sl = ne := by omega
+                  rw [e1, e2] at sg
+                  exact ⟨⟨_, sg⟩, rfl⟩
+              · rename_i hpos
+                simp only [Except.ok.injEq, Prod.mk.injEq] at h
+                obtain ⟨rfl, rfl, rfl, rfl⟩ := h
+                have : sl = 0 := by omega
+                subst this
+                exact ⟨⟨[], Seg.nil⟩, rfl⟩
+            obtain ⟨⟨post, spost⟩, rfl⟩ := hpost
+            exact ⟨⟨_, spre.append (smid.append spost)⟩, fun hc => hc4 (by rw [hc3]; exact hc)⟩
+
+/-- `conquer` appends a valid script for its box to what the recording hook already holds; the carried
+indices are near-exact (hence obey C01's run-relative rule), they are exact when there is no deadline
+and `find_middle_snake` then never gives up, and without a deadline the clock stays untouched. -/
+theorem conquer_sound_near (E : Env) (hbox : SnakeInBox E) (off : Nat) :
+    ∀ (fuel os oe ns ne : Nat) (vf vb : V) (r : Rec) (w : World) (r' : Rec) (vf' vb' : V) (w' : World),
+      r.failAt = none → os ≤ oe → ns ≤ ne → InBounds E os oe ns ne →
+      conquer E recHook off fuel os oe ns ne vf vb r w = .ok (r', vf', vb', w') →
+      ∃ ops, r' = { r with trace := r.trace ++ ops.map Call.op } ∧
+        Walk (eqB E) os ns ops oe ne ∧ Carried os ns ops ∧
+        (SnakeFound E → w.clock = none → Exact os ns ops) ∧
+        NearExact none os ns ops ∧ (w.clock = none → w'.clock = none) := by
+  intro fuel os oe ns ne vf vb r w r' vf' vb' w' hf ho hn hb h
+  obtain ⟨⟨ops, sg⟩, hc⟩ := conquer_aux E hbox off (SnakeFound E ∧ w.clock = none) (fun hp => hp.1)
+    fuel os oe ns ne vf vb r w r' vf' vb' w' hf ho hn hb (fun hp => hp.2) h
+  exact ⟨ops, sg.ext, sg.walk, Carried_of_NearExact sg.near, fun h1 h2 => sg.exact ⟨h1, h2⟩, sg.near, hc⟩
+
 /-- `conquer` appends a valid script for its box to what the recording hook already holds; the
-carried indices obey C01's run-relative rule, and are exact when there is no deadline. -/
+carried indices obey C01's run-relative rule, and are exact when there is no deadline (relative to
+`SnakeFound`: without a deadline `find_middle_snake` does not give up). -/
 theorem conquer_sound (E : Env) (hbox : SnakeInBox E) (off : Nat) :
     ∀ (fuel os oe ns ne : Nat) (vf vb : V) (r : Rec) (w : World) (r' : Rec) (vf' vb' : V) (w' : World),
       r.failAt = none → os ≤ oe → ns ≤ ne → InBounds E os oe ns ne →
       conquer E recHook off fuel os oe ns ne vf vb r w = .ok (r', vf', vb', w') →
       ∃ ops, r' = { r with trace := r.trace ++ ops.map Call.op } ∧
-        Walk (eqB E) os ns ops oe ne ∧ Carried os ns ops ∧ (w.clock = none → Exact os ns ops) := by
-  sorry
+        Walk (eqB E) os ns ops oe ne ∧ Carried os ns ops ∧
+        (SnakeFound E → w.clock = none → Exact os ns ops) := by
+  intro fuel os oe ns ne vf vb r w r' vf' vb' w' hf ho hn hb h
+  obtain ⟨ops, h1, h2, h3, h4, -, -⟩ :=
+    conquer_sound_near E hbox off fuel os oe ns ne vf vb r w r' vf' vb' w' hf ho hn hb h
+  exact ⟨ops, h1, h2, h3, h4⟩
+
+/-- `myers::diff_deadline` over the recording hook: the trace is a script followed by one `finish`;
+the script is valid, near-exact, and exact without a deadline (relative to `SnakeFound`). -/
+theorem myers_sound_near (E : Env) (hbox : SnakeInBox E) (os oe ns ne : Nat) (w : World) (r' : Rec) (w' : World)
+    (ho : os ≤ oe) (hn : ns ≤ ne) (hb : InBounds E os oe ns ne)
+    (h : myersDiff E recHook os oe ns ne {} w = .ok (r', w')) :
+    ∃ ops, r'.trace = ops.map Call.op ++ [.finish] ∧ Walk (eqB E) os ns ops oe ne ∧ Carried os ns ops ∧
+      (SnakeFound E → w.clock = none → Exact os ns ops) ∧ NearExact none os ns ops ∧
+      (w.clock = none → w'.clock = none) := by
+  unfold myersDiff at h
+  simp only at h
+  split at h
+  · simp at h
+  · rename_i r1 vf1 vb1 w1 hc
+    obtain ⟨ops, h1, h2, h3, h4, h5, h6⟩ :=
+      conquer_sound_near E hbox _ _ os oe ns ne _ _ {} w r1 vf1 vb1 w1 rfl ho hn hb hc
+    subst h1
+    simp [recHook, Rec.push, Except.map] at h
+    obtain ⟨rfl, rfl⟩ := h
+    exact ⟨ops, by simp, h2, h3, h4, h5, h6⟩
 
 /-- **Myers, partial correctness**: if `myers::diff_deadline` returns, the recorded calls are a
 valid script for the two ranges followed by exactly one `finish`. -/
@@ -30,6 +565,17 @@ theorem myers_sound (E : Env) (hbox : SnakeInBox E) (os oe ns ne : Nat) (w : Wor
     (ho : os ≤ oe) (hn : ns ≤ ne) (hb : InBounds E os oe ns ne)
     (h : myersDiff E recHook os oe ns ne {} w = .ok (r', w')) :
     ValidRaw E os oe ns ne r'.trace := by
-  sorry
+  obtain ⟨ops, h1, h2, h3, -⟩ := myers_sound_near E hbox os oe ns ne w r' w' ho hn hb h
+  exact ⟨ops, h1, h2, h3⟩
 
-end SimilarVerif
+/-- **Myers without a deadline**: every index of every op is exact (C11 for the raw stream), relative
+to the two facts about `find_middle_snake`. -/
+theorem myers_exact (E : Env) (hbox : SnakeInBox E) (hfound : SnakeFound E) (os oe ns ne : Nat)
+    (w : World) (r' : Rec) (w' : World)
+    (ho : os ≤ oe) (hn : ns ≤ ne) (hb : InBounds E os oe ns ne) (hclock : w.clock = none)
+    (h : myersDiff E recHook os oe ns ne {} w = .ok (r', w')) :
+    ∃ ops, r'.trace = ops.map Call.op ++ [.finish] ∧ Walk (eqB E) os ns ops oe ne ∧ Exact os ns ops := by
+  obtain ⟨ops, h1, h2, -, h4, -⟩ := myers_sound_near E hbox os oe ns ne w r' w' ho hn hb h
+  exact ⟨ops, h1, h2, h4 hfound hclock⟩
+
+end SimilarVerif.MyersP
